@@ -326,13 +326,21 @@ class CategoricalData:
             values = [self.unique_values[index] for index in indices]
         except TypeError:
             return self.unique_values[indices]
-        # Handle empty selections specially to ensure proper dtype and shape
-        if not values:
-            all_possible_values = np.array(self.unique_values)
-            dtype = all_possible_values.dtype
-            shape = all_possible_values.shape
-            return np.empty((0,) + shape[1:], dtype)
-        return np.array(values)
+        try:
+            # Handle empty selections specially to ensure proper dtype and shape
+            if not values:
+                all_possible_values = np.array(self.unique_values)
+                dtype = all_possible_values.dtype
+                shape = all_possible_values.shape
+                return np.empty((0,) + shape[1:], dtype)
+            return np.array(values)
+        except ValueError:
+            # Array-valued sensor values of different shapes cannot be stacked:
+            # return them as a 1-D array of objects instead (one per dump)
+            ragged = np.empty(len(values), dtype=object)
+            for n, value in enumerate(values):
+                ragged[n] = value
+            return ragged
 
     def __repr__(self):
         """Short human-friendly string representation of categorical data object."""
